@@ -98,6 +98,10 @@ def alias_cases():
     add("dest-symlink-to-other-source-reversed", base + two + [L("dd/a", "../b")], ["b", "a", "dd"], ["a", "b"])
     add("dest-hardlink-of-other-source", base + two + [H("dd/a", "b")], ["a", "b", "dd"], ["a", "b"])
     add("dest-hardlink-of-other-source-reversed", base + two + [H("dd/a", "b")], ["b", "a", "dd"], ["a", "b"])
+    # ... the same deeper in a tree, where the other source is met only after the entry that aliases it (in either walk order)
+    cross = [D("srcx"), D("srcx/sub"), F("srcx/sub/x", 3000, 103), F("srcx/sub/y", 5000, 104), F("srcx/a", 10, 105), D("dst"), D("dst/srcx"), D("dst/srcx/sub")]
+    add("dest-hardlinks-cross-nested", base + cross + [H("dst/srcx/sub/x", "srcx/sub/y"), H("dst/srcx/sub/y", "srcx/sub/x")], ["srcx", "dst"], ["srcx/sub/x", "srcx/sub/y"], True)
+    add("dest-symlink-to-later-nested-source", base + cross + [L("dst/srcx/a", "../../srcx/sub/y")], ["srcx", "dst"], ["srcx/sub/y", "srcx/a"], True)
     add("dest-abs-symlink-to-other-source-glob", base + two + [L("dd/a", "@ROOT@/b")], ["--glob", "?", "dd"], ["a", "b"])
     # a source whose last component is `..` (or `.`) has no name of its own: its contents go into the destination, not next to it
     dd = [D("p"), D("p/a"), D("p/a/sub"), F("p/a/f", 21, 95), D("q"), D("q/dd"), F("q/f", 33, 96), D("q/sub"), F("q/sub/keep", 5, 97)]
